@@ -115,7 +115,7 @@ func WrongAcceptSignature(v Verdict, toks []Tok) string {
 	need := v.T - v.DIncl
 	neutral := v.Repeats + cnt(KNonMem)
 	switch {
-	case v.Repeats >= need:
+	case v.Repeats >= need && cnt(KWrongID, KCorrupt, KMismatch) == 0:
 		return "qc|repeated-member-signature-counted"
 	case cnt(KNonMem) > 0 && neutral >= need && v.Invalid == 0:
 		return "qc|non-member-signature-counted"
